@@ -33,7 +33,7 @@ CLAIMED["C01"] = (
 CLAIMED["C05"] = (
     "DESIGN.md §5 C05",
     "BFS over kerning dictionaries (add-one-entry ops, 56 keys x value palette, depth 2, interacting keys only) x "
-    "9 group configurations x 12 environment switches, plus the complete 4-level exception lattice and a "
+    "9 group configurations x 13 environment switches (incl. over-long group names sharing a 64-character prefix), plus the complete 4-level exception lattice and a "
     "cross-script merge lattice; in every state "
     "the compiled GPOS is evaluated by an independent PairPos interpreter for every ordered pair of a 13-glyph "
     "multi-script repertoire under every selectable script/language and compared with UFO kerning semantics; both "
